@@ -252,31 +252,6 @@ func decodeReal(b []byte) DecObs {
 // builder machinery, hence the factor.)
 func allocBound(n int) uint64 { return 256*uint64(n) + 64*1024 }
 
-// decOracle applies the direct oracles of the decoder half of the property.
-// Returns a failure class ("" when fine) and a description.
-func decOracle(b []byte, d DecObs) (string, string) {
-	if d.out == "panic" {
-		return "panic", "UnmarshalBinary panicked: " + d.msg
-	}
-	if d.alloc > allocBound(len(b)) {
-		return "alloc", fmt.Sprintf("UnmarshalBinary allocated %d bytes for %d input bytes (bound %d)", d.alloc, len(b), allocBound(len(b)))
-	}
-	if d.out == "ok" {
-		var re []byte
-		r := guarded(func() (err error) { re, err = d.m.MarshalBinary(); return })
-		if r.out != "ok" {
-			return "reencode", "decoded metadata does not marshal: " + r.out + " " + r.msg
-		}
-		if !bytes.Equal(re, b) {
-			return "reencode", fmt.Sprintf("decoded metadata re-encodes to %x, input was %x", re, b)
-		}
-		if err := d.m.Validate(); err != nil {
-			return "reencode", "decoded metadata does not validate: " + err.Error()
-		}
-	}
-	return "", ""
-}
-
 // ---------------------------------------------------------------------------
 // encode side
 
